@@ -15,7 +15,7 @@ VALUES = ["1", "abc", "{x}", '"x"', "{a{b}c}", '"a{b}c"', '{a"b}', "{a,b=c}", '"
           '"a {b} {c{d}} e"', "{% x}", "{a\r\nb}", "{rows end with \\\\} in LaTeX}", '"q \\\\" q"', "{open \\\\{ only}",
           '"a {"} b"', "{a \\\\ b}", '" x "', '"pad "', "{\tt}", '" "',
           "{007}", "01", '"0012"', "{٢٠٢٠}", "000", "{12}"]      # digit strings are text: leading zeros and non-ASCII digits are kept
-WS = ["", " ", "\n", "\r\n", "\t", "  ", " \n "]
+WS = ["", " ", "\n", "\r\n", "\t", "  ", " \n ", "\u00a0", "\x0c ", " \u2003"]
 GAPS = ["", "% comment", "free text = , \" } {", "a\\@b", "x\ny", "#"]
 ETYPES = ["article", "Book", "commentary", "stringent", "x1", "INPROCEEDINGS", "preambles", "é",
           "Straße", "ΛΌΓΟΣ", "ſtring", "ǅx"]      # lower() differs from casefold() / is not ASCII-only
